@@ -474,26 +474,25 @@ def key_of(case, clause):
 
 def build_cases(ctx):
     rng = random.Random(ctx.seed * 1000003 + 6)
-    cases, recipes = [], []
+    recipes = []
     plans, counts, sampled = enumerate_small(ctx, rng)
     for rs, plan in plans:
-        s = rng.randrange(1 << 30)
-        c = observe(rs, plan, random.Random(s), rich=True, nsv=3, nq=4)
-        c['source'] = 'enumerated'
-        cases.append(c)
-        recipes.append({'rs': list(rs), 'plan': plan, 'seed': s, 'fold': False, 'source': 'enumerated'})
+        recipes.append({'rs': list(rs), 'plan': plan, 'seed': rng.randrange(1 << 30), 'fold': False, 'source': 'enumerated'})
     for rs, plan, fold in random_plans(ctx, rng):
-        s = rng.randrange(1 << 30)
-        c = observe(rs, plan, random.Random(s), rich=True, fold=fold, nsv=6, nq=8)
-        c['source'] = 'random'
-        cases.append(c)
-        recipes.append({'rs': list(rs), 'plan': plan, 'seed': s, 'fold': fold, 'source': 'random'})
+        recipes.append({'rs': list(rs), 'plan': plan, 'seed': rng.randrange(1 << 30), 'fold': fold, 'source': 'random'})
+    # expensive recipes first so that the worker processes finish together
+    order = sorted(range(len(recipes)), key=lambda i: -int(np.prod(recipes[i]['rs'])) * (len(recipes[i]['plan']) + 1))
+    built = exact.pmap(rebuild, [recipes[i] for i in order], procs=8, chunksize=8)
+    cases = [None] * len(recipes)
+    for i, c in zip(order, built):
+        cases[i] = c
     return cases, recipes, counts, sampled
 
 
 def rebuild(recipe):
+    small = recipe['source'] == 'enumerated'
     c = observe(tuple(recipe['rs']), recipe['plan'], random.Random(recipe['seed']), rich=True, fold=recipe['fold'],
-                nsv=3 if recipe['source'] == 'enumerated' else 6, nq=4 if recipe['source'] == 'enumerated' else 8)
+                nsv=3 if small else 6, nq=4 if small else 8)
     c['source'] = recipe['source']
     return c
 
